@@ -83,6 +83,10 @@ def gen(rng, k=None):
 
 
 ADAPTIVE = []
+ENTRY = []
+PICK_RNG = np.random.default_rng(30303)     # separate stream: keeps the fixed sample the validated one
+import region_model
+REGION_REC = region_model.RegionRecorder(max_records=40, stride=4)
 
 
 def sample_stacks(ctx, target, directed=False):
@@ -126,10 +130,13 @@ def sample_stacks(ctx, target, directed=False):
         desc.update({"noise": noise, "seed": seed})
         done += 1
         try:
-            with SC.FinderRecorder() as rec, SC.ProtoRecorder() as prec:
+            with SC.FinderRecorder() as rec, SC.ProtoRecorder() as prec, REGION_REC:
                 clusters = SBC().get_clusters(a, seed=seed)
             if len(ADAPTIVE) < 500:
                 ADAPTIVE.extend(prec.adaptive[:40])
+            if len(ENTRY) < 200:
+                import finder_helpers as FH
+                ENTRY.extend(FH.entry_items(a, rec.system, PICK_RNG, "stack"))
             dims = [c.get_dimensionality() for c in clusters]
         except Exception as e:  # noqa
             bad.append({"desc": desc, "complaint": "exception %s: %s" % (type(e).__name__, str(e)[:150]), "atoms": crystals.atoms_to_json(a)})
@@ -161,7 +168,8 @@ def run(ctx):
         ctx.finding("stack:%s/%s:%s" % (b["desc"]["bottom"], b["desc"]["top"], b["desc"]["facet"]), "%s on %s %s: %s" % (b["desc"]["top"], b["desc"]["bottom"], b["desc"]["facet"], b["complaint"]),
                     {"kind": "failing-input", "case": b, "how": "SBC().get_clusters(atoms, seed=seed) with default parameters"})
     import finder_helpers
-    finder_helpers.check(ctx, broken, ADAPTIVE)
+    finder_helpers.check(ctx, broken, ADAPTIVE, ENTRY)
+    region_model.check(ctx, broken, REGION_REC.records)
     if broken and not bad:
         bad, f2, f3 = sample_stacks(ctx, ctx.n(60, 300), directed=True)
         for b in bad[:5]:
